@@ -4,6 +4,8 @@
 // The test runs them in Go and checks, inside Coq, that the translated functions compute the same values.
 package gtfix
 
+import "errors"
+
 type Kind int
 
 const (
@@ -383,4 +385,37 @@ func Script2(f *Frames, k string, mark bool) (int, int) {
 	b := len(f.Cut())*100 + f.Cut().Get(k) + f.Cut().Get("x")
 	*f = (*f)[:0]
 	return a, b
+}
+
+// ---- error results, slices built by append ----
+
+// ErrF: an error result is "err != nil".
+func ErrF(x int) (int, error) {
+	if x < 0 {
+		return 0, errors.New("negative")
+	}
+	return x * 2, nil
+}
+
+// UseErr: a multi-valued call of a translated function, and a test of its error.
+func UseErr(x int) int {
+	v, err := ErrF(x - 3)
+	if err != nil {
+		return -1
+	}
+	if err == nil && v > 10 {
+		return v
+	}
+	return 0
+}
+
+// Evens: make([]T, 0, n) and append in a loop.
+func Evens(n int) []int {
+	r := make([]int, 0, 4)
+	for i := 0; i < n; i++ {
+		if i%2 == 0 {
+			r = append(r, i, -i)
+		}
+	}
+	return r
 }
